@@ -196,7 +196,12 @@ def run_cli_create(desc, files, fmt, decoy=False):
 
     d = scratch_dir()
     write_files(files, d)
-    inp = os.path.join(d, "input." + fmt)
+    # the format comes from the suffix (AUTO) or is named explicitly - then the file may be called anything, also after the other format
+    import zlib as _z
+    how = _z.crc32(json.dumps(desc, sort_keys=True, default=str).encode()) % 5
+    in_name, in_format = [("input." + fmt, "AUTO"), ("input." + fmt, "AUTO"), ("input." + fmt, fmt), ("input.txt", fmt),
+                          ("input." + ("json" if fmt == "yaml" else "yaml"), fmt)][how]
+    inp = os.path.join(d, in_name)
     cfgdir = os.path.join(d, "config_dir")
     if decoy:
         os.makedirs(cfgdir, exist_ok=True)
@@ -204,7 +209,7 @@ def run_cli_create(desc, files, fmt, decoy=False):
             if "/" not in name:
                 with open(os.path.join(cfgdir, name), "wb") as fh:
                     fh.write(bytes(x ^ 0x3C for x in content) + b"decoy")
-        inp = os.path.join(cfgdir, "input." + fmt)
+        inp = os.path.join(cfgdir, in_name)
     outp = os.path.join(d, "out.suit")
     write_description(desc, inp, fmt)
     old = os.getcwd()
@@ -212,7 +217,7 @@ def run_cli_create(desc, files, fmt, decoy=False):
         os.chdir(d)
         from . import common as _c
         _c.make_stale(outp)
-        cmd_create.main(input_file=inp, input_format="AUTO", output_file=outp)
+        cmd_create.main(input_file=inp, input_format=in_format, output_file=outp)
         with open(outp, "rb") as fh:
             return {"ok": fh.read().hex()}
     except BaseException as e:  # noqa
